@@ -25,6 +25,9 @@ SIG_F4 = "C18/poll-partial-shrink-replaces-index-dropping-untouched-pages"
 SIG_F5 = "C18/poll-l1-overlaid-over-newer-l0"
 SIG_L1SHRINK = "C18/poll-l1-commit-below-polled-l0-commit-replaces-index"
 SIG_OPEN = "C18/open-index-keeps-pages-beyond-commit-after-shrink"
+SIG_TT = "C18/time-travel-view-differs-from-timestamp-restore"
+SIG_RT = "C18/reset-view-differs-from-latest-restore"
+SCHED_KINDS = ("tt-set", "tt-unlock", "tt-poll", "rt-reset", "rt-unlock")
 SIG_WEDGE = "C18/poll-cannot-pass-maxtxid1-l1-not-contiguous-index-keeps-entries-into-deleted-l0"
 
 WHAT = {
@@ -34,6 +37,10 @@ WHAT = {
             "below the position reached through L0 puts older page versions back",
     SIG_L1SHRINK: "pollLevel(1) starts from the commit reached by the L0 poll; an L1 file with a smaller commit (database grew in a "
                   "later L0 transaction) fires the replace rule and the index keeps only the pages of the polled L1 files",
+    SIG_TT: "after SetTargetTime (with Lock, a poll staged in the pending index, Unlock around it) the view is not the "
+            "timestamp restore for the target time",
+    SIG_RT: "after ResetTime (with Lock, a poll staged in the pending index, Unlock around it) the view is not the restore "
+            "at the latest position",
     SIG_WEDGE: "the L1 listing does not continue at maxTXID1+1 (rebuildIndex seeds maxTXID1 from pos when the plan holds no L1 file, "
                "so the L1 file covering pos starts at or below it and LTXFiles' seek hides it; the next L1 file then fails the "
                "contiguity test and every poll errors): entries that point into L0 files are never moved to L1, and after L0 "
@@ -114,7 +121,7 @@ def analyse(v, out, cases, stats, mism):
     bad_lines = {}
     for m in mism:
         bad_lines.setdefault(m["line"], m)
-    model_bad = [m for m in mism if m["entry"] in ("vfs_open", "vfs_poll", "vfs_lockop")]
+    model_bad = [m for m in mism if m["entry"] in ("vfs_open", "vfs_poll", "vfs_lockop", "vfs_step")]
     for m in model_bad[:1]:
         v.violation("C18/model-mismatch:" + m["entry"],
                     "implementation and model disagree on %d case(s) of %s (coq/Vfs vs vfs.go)"
@@ -133,11 +140,21 @@ def analyse(v, out, cases, stats, mism):
         if p.get("ok_line"):
             req[("diff", p["id"])] = _derive(cases, p["ok_line"], "vfs_pages_diff")
         if p.get("model_line"):
-            if p["kind"] in ("poll", "lpoll"):
+            if p["kind"] in SCHED_KINDS:
+                pass
+            elif p["kind"] in ("poll", "lpoll"):
                 lockp = str((1 << 30) // _ps(p) + 1)
                 req[("dom", p["id"])] = _derive(cases, p["model_line"], "vfs_poll_domain", lockp)
             else:
                 req[("dom", p["id"])] = _derive(cases, p["model_line"], "vfs_open_domain")
+    plan_defs = {}
+    if any(p["kind"] in SCHED_KINDS for p in failing):
+        for ln in open(cases):
+            if ln.startswith("=plan"):
+                plan_defs[ln.split("\t")[0][1:]] = ln.rstrip("\n")
+    for p in failing:
+        if p["kind"] in SCHED_KINDS and p.get("plan_def") in plan_defs:
+            req[("dom", p["id"])] = [plan_defs[p["plan_def"]], "vfs_open_domain\t($%s)\t()" % p["plan_def"]]
     ev = _eval(cases, req, out)
 
     unjudged, by_sig, last_sig, last_bad = 0, {}, {}, {}
@@ -188,6 +205,14 @@ def analyse(v, out, cases, stats, mism):
                 sig = SIG_OPEN
             else:
                 sig = "C18/open-differs-from-restore"
+        elif p["kind"] in SCHED_KINDS:
+            # view after SetTargetTime / ResetTime under a schedule of Lock, staged Poll, Unlock
+            if dom == 0 and size_only:
+                sig = SIG_OPEN
+            elif (not p["prev_ok"]) and inst in last_sig and badset <= last_bad.get(inst, set()):
+                sig = last_sig[inst]
+            else:
+                sig = SIG_TT if p["kind"].startswith("tt-") else SIG_RT
         else:
             if dom and dom[0] == 1:
                 sig = SIG_F4
@@ -251,7 +276,8 @@ def run(v):
     total, mism, errors = C.run_runner(cases, LAYERS)
     stats = json.load(open(os.path.join(out, "stats.json")))
     if total == 0 or stats.get("cases", 0) == 0 or total != stats.get("cases"):
-        v.violation("C18/no-cases", "the harness produced %s cases, the runner evaluated %d" % (stats.get("cases"), total),
+        v.violation("C18/no-cases", "the harness produced %s cases, the runner evaluated %d; runner errors: %s"
+                    % (stats.get("cases"), total, "; ".join(errors[:3])),
                     {"theorem_or_correspondence": "correspondence vfs (harness produced no / other cases)"}, False)
         return
     if errors:
@@ -263,11 +289,11 @@ def run(v):
         "rule": "histories over a real litestream DB + SQLite application connection (page sizes 512/1024/4096, "
                 "auto_vacuum=incremental): inserts, updates, deletes, incremental_vacuum(n), VACUUM, sync, Compact(1), "
                 "Compact(2), Snapshot, L0 retention, snapshot+TXID retention, interleaved with VFS open, poll, "
-                "lock-poll-unlock, time travel and reset on a VFSFile over the file replica (1-page and 10 MiB page cache). "
-                "15 directed histories (the shapes of F4/F5 and neighbours) run with both cache sizes, then seeded random ones. "
+                "lock-poll-unlock, time travel and reset, and schedules Lock; Poll (staged in the pending index); [more writes + sync]; SetTargetTime(earlier time) | ResetTime; [Poll]; Unlock; [Poll]; ResetTime on a VFSFile over the file replica (1-page and 10 MiB page cache). "
+                "21 directed histories (the shapes of F4/F5 and neighbours) run with both cache sizes, then seeded random ones. "
                 "Per check point: ReadAt of every page, once with the cache as the history left it and once with a purged (cold) "
                 "cache, and FileSize vs Restore(TXID=Pos()) bytes (page-1 bytes 18,19,24..27 masked); a page indexed into a file "
-                "that retention deleted while Restore(TXID=Pos()) succeeds is a violation; the index vs the model (vfs_open / vfs_poll / vfs_lockop) and vs the L0-ledger oracle "
+                "that retention deleted while Restore(TXID=Pos()) succeeds is a violation; the index vs the model (vfs_open / vfs_poll / vfs_lockop / vfs_step) and vs the L0-ledger oracle "
                 "(vfs_pages_ok). distinct = distinct (entry,input); non-trivial = plan of more than one file / poll that "
                 "consumed a file / lock op with pending entries / oracle on an index of more than one page.",
         "samples": [s[:700] for s in stats["samples"]],
